@@ -8,9 +8,10 @@ import conc
 import driver
 
 PROPERTIES_FILE = "Properties/Properties_C17.v"
-COQ_DEPS = ["Proofs/Refcnt_proofs.vo", "Model/RefcntSites.vo", "Gen/Gen_lanesites.vo", "Gen/Gen_fields.vo", "Gen/Gen_refcnt.vo",
-            "Gen/Gen_group.vo"]
-GEN_MODULES = ["Gen_refcnt", "Gen_group", "Gen_lanesites"]
+COQ_DEPS = ["Proofs/Refcnt_inv_proofs.vo", "Proofs/Refcnt_proofs.vo", "Model/RefcntSites.vo", "Gen/Gen_lanesites.vo", "Gen/Gen_fields.vo", "Gen/Gen_refcnt.vo",
+            "Gen/Gen_group.vo", "Proofs/SLaneRef_proofs.vo"]
+EXTRA_PROPERTIES_FILES = ["Properties/Properties_C17_lane.v"]
+GEN_MODULES = ["Gen_refcnt", "Gen_group", "Gen_lanesites", "Gen_dqstate"]
 LEVEL = "proof"
 COQ_TIMEOUT = 2400
 TRUSTED = [
@@ -21,18 +22,34 @@ TRUSTED = [
     "differential run: do_xref_cnt / do_ref_cnt of real objects at quiescent points = the model's counters",
     "the group word is kept abstract (value, HAS_NOTIFS); generation / HAS_WAITERS and the agreement between the concrete word and "
     "this abstraction are C07's subject: the global model admits a step only when the branch taken on the concrete word agrees",
-    "references are ghost tokens: the client is the most general program that releases only references it holds and uses the "
-    "object only through a held reference (or, for dispatch_group_leave, an outstanding enter); fewer than 2^31-2 references and "
-    "fewer than 2^30 nested enters at a time",
+    "CLIENT CONTRACT, part 1 (reference discipline, Refcnt.call_guard — an enabling condition of the model): references are ghost "
+    "tokens; a call USES the object through a reference that exists and only borrows it (any number of threads may be inside calls "
+    "through the same reference); a release takes the reference it releases; while calls in progress borrow a reference of a level "
+    "(external / internal) the owners do not release the last reference of that level; a leave consumes an enter that has returned",
+    "CLIENT CONTRACT, part 2 (Refcnt.contract_r — an explicit hypothesis on every step of a run, restated by C17_contract_is; the model "
+    "itself does what C does beyond it: counters wrap, 'Too many nested calls' and 'deallocated while in use' go to the crash state): "
+    "fewer than 2^31-2 references of each level; fewer than 2^30-1 outstanding enters; at dispose the low word of dg_state is non-zero "
+    "only if the value or HAS_NOTIFS are (HAS_WAITERS is not left set on an empty group: a fact about the part of dg_state kept "
+    "abstract here, C07's subject)",
     "atomicity: each os_atomic_* operation is one step; sequentially consistent interleaving (memory-order strength is tied to "
     "the source only through the site lists)",
-    "lanes, sources, timers, queue-specific data: PARTIAL — the sequential holders formula Refcnt.lane_ref (checked against real "
-    "objects at quiescent points) and the site order of _dispatch_lane_push; no global invariant over their interleavings; data "
-    "objects are C13's subject, I/O channels are not modelled",
+    "serial lanes: the +2 protocol (push on an empty list / override push, wakeup CONSUME_2, worker's release after the drain) is "
+    "proved as a ghost-counter invariant over Model/SLane.v (Properties_C17_lane.v); SLane does not model suspension, dispatch_sync "
+    "or the client's own references",
+    "DIFFERENTIAL ONLY (no theorem): suspend +2, initially-inactive +2, references of child queues and sources on their target, "
+    "timer +2 while armed, DSF_DELETED reference of sources, queue-specific destructors: the sequential holders formula "
+    "Refcnt.lane_ref checked against real objects at quiescent points, plus site-order lemmas; data objects are C13's subject; "
+    "semaphores, I/O channels, global (immortal) objects, _os_object_retain_with_resurrect are not modelled",
+    "the finalizer 'runs exactly once on its target queue' is proved as: submitted exactly once at dispose to the then-current "
+    "target queue with the then-current context; its execution is C01's subject (observed by the harness)",
+    "trace conformance looks at the group's refcount words, dg_state, dg_gen, notify head / tail (offsets 8,12,48,52,56,64) and the "
+    "notification queue's refcount words; other events on the object (do_targetq exchange, do_next) are dropped, i.e. untied",
     "memory safety of the C code itself is validated (AddressSanitizer build in the thorough tier), not proved",
 ]
-ASSUMPTIONS = ["clients respect the reference discipline (no over-release, no use after the last release)",
-               "fewer than 2^31-2 simultaneous references, fewer than 2^30 nested dispatch_group_enter"]
+ASSUMPTIONS = ["clients respect the reference discipline: no over-release, no use after the last release, the last reference of a level "
+               "is not released while calls in progress use the object through that level (sharing one reference between threads is fine)",
+               "fewer than 2^31-2 simultaneous references of each level, fewer than 2^30-1 outstanding dispatch_group_enter",
+               "HAS_WAITERS is not left set on an empty group at dispose (C07)"]
 
 GOPS = {"e": (3, 0), "l": (4, 0), "n": (5, 0), "r": (1, 0), "R": (2, 0), "i": (9, 1), "j": (9, 2), "I": (10, 1), "J": (10, 2),
         "f": (7, 1), "F": (7, 0), "t": (8, 5), "T": (8, 6), "C": (6, 0)}
@@ -83,6 +100,9 @@ class GSim:
             self.i -= 1
         elif c == "J":
             self.i -= 2
+        elif c == "W":          # _os_object_retain_weak: a new external reference iff external references still exist
+            if self.x > 0:
+                self.x += 1
 
 
 def tokens(script):
@@ -106,6 +126,8 @@ def model_calls(script):
             res.append([(3, bi, 0), (4, 0, 0)])
         elif c == "w":
             res.append([])
+        elif c == "W":
+            res.append([(11, bi, 0)])
         elif c in "rRlIJ":
             res.append([(GOPS[c][0], 0, GOPS[c][1])])
         else:
@@ -120,7 +142,7 @@ def model_calls(script):
 def gen_group_scripts(rng, n):
     corpus = ["c1fennlR",            # witness shape of seeded defect C17-1: two notifications pending when the group empties
               "ennnlR", "c2fennnnlrRR", "c3ftenlnR", "nnR", "c4fenRl", "eiRnnlI", "c5fTjRenlJ", "c6fiReenllnI", "eelnlR",
-              "c7fFeR" "l", "c8fCenlR", "c9faR", "enarR", "c1ftwewlR", "rrRRenlennlR", "c2fenlenlennnlR"]
+              "c7fFeR" "l", "c8fCenlR", "c9faR", "enarR", "WRWiRWI", "c3fiWrRRRWI", "c1ftwewlR", "rrRRenlennlR", "c2fenlenlennnlR"]
     out = list(corpus)
     for _ in range(n):
         sim, s = GSim(), ""
@@ -131,7 +153,7 @@ def gen_group_scripts(rng, n):
                 s += "f"
         burst = rng.chance(1, 3)
         for _k in range(L):
-            cands = [c for c in "eelnnnrRiIjJtTwa" if sim.legal(c) and (c != "a" or sim.usable())]
+            cands = [c for c in "eelnnnrRiIjJtTwaW" if sim.legal(c) and (c != "a" or sim.usable())]
             if burst and sim.e > 0 and sim.usable() and rng.chance(1, 2):
                 c = "n"
             elif not cands:
@@ -170,6 +192,7 @@ def run_scripts(exe, lines, env=None):
         k += len(got)
         if k < len(lines):
             if r.returncode == 0 and not got:
+                crashes.append((k, "exit 0 without output", (r.stderr or "")[-300:]))
                 break
             part = [l for l in r.stdout.split("\n") if l[:1] in ("G", "L") and "|" not in l]
             crashes.append((k, r.returncode, (r.stderr or "")[-700:] + (" || partial output: " + part[-1] if part else "")))
@@ -254,8 +277,11 @@ def check_group(scripts, outs, crashes, label):
         bad = False
         for k, (c, grp) in enumerate(zip(toks, groups)):
             pos += len(grp)
-            m = mo[pos - 1] if pos > 0 and pos - 1 < len(mo) else [0, 0, 0, 0, 0, 0, 0, 0]
-            if m == [-99]:
+            if pos - 1 >= len(mo):
+                m = [-99]
+            else:
+                m = mo[pos - 1] if pos > 0 else [0, 0, 0, 0, 0, 0, 0, 0]
+            if m == [-99] or [-99] in mo[:pos]:
                 mism.append({"what": "the model refuses a call of a legal script", "detail": {"script": s, "call": k}})
                 bad = True
                 break
@@ -517,8 +543,10 @@ def run_stress(exe, seed, rounds, permille, env=None):
 def analyse_stress(text, label, rc, err):
     other, per = conc.parse_dump(text)
     fails, traces = [], []
-    stats = {"rounds": 0, "threads": 0, "wake_batches": 0, "max_batch": 0, "disposes_by_internal_path": 0, "cas_retries": 0,
-             "weak_cas_retries": 0, "last_release_in_leave": 0}
+    stats = {"rounds": 0, "threads": 0, "wake_batches": 0, "max_batch": 0, "cas_retries": 0, "weak_cas_retries": 0,
+             "dispose_in_release": 0, "dispose_in_leave": 0, "dispose_in_internal_release": 0, "dispose_in_notify": 0,
+             "calls_via_internal_reference": 0, "retain_weak_calls": 0, "retain_weak_refused": 0, "max_concurrent_borrowers": 0}
+    callspans = []
     for l in other:
         f = l.split()
         if f[0] == "R":
@@ -541,7 +569,23 @@ def analyse_stress(text, label, rc, err):
             continue
         stats["threads"] += 1
         batch = 0
+        lastop, lastseq = 0, 0
         for e in tr:
+            if e.kind == 100:
+                lastop, lastseq = e.a % 100, e.seq
+                if e.a >= 100:
+                    stats["calls_via_internal_reference"] += 1
+                if lastop == 11:
+                    stats["retain_weak_calls"] += 1
+            if e.kind == 101 and lastop in (3, 5, 1, 9, 11):
+                callspans.append((lastseq, e.seq))
+            if e.obj == 1 and e.off == 12 and e.kind == 1 and lastop == 11 and e.a == 18446744073709551615:
+                stats["retain_weak_refused"] += 1
+            # the dispose barrier (_os_object_dispose: load-acquire of os_obj_ref_cnt): in which call did the last reference go?
+            if e.obj == 1 and e.off == 8 and e.kind == 1 and e.order == 2:
+                key = {2: "dispose_in_release", 4: "dispose_in_leave", 10: "dispose_in_internal_release", 5: "dispose_in_notify"}.get(lastop)
+                if key:
+                    stats[key] += 1
             if e.obj == 1 and e.off == 64 and e.kind == 3 and e.b == 0:
                 stats["wake_batches"] += 1
                 batch = 0
@@ -553,6 +597,12 @@ def analyse_stress(text, label, rc, err):
             if e.obj == 1 and e.off == 48 and e.kind == 5 and not (e.ok & 1):
                 stats["weak_cas_retries"] += 1
         traces.append((thr, tr))
+    # how many calls USING the object overlapped (by recorder tickets): the shared-reference clients the model now covers
+    evs = sorted([(a, 1) for a, _ in callspans] + [(b, -1) for _, b in callspans])
+    cur = 0
+    for _, d in evs:
+        cur += d
+        stats["max_concurrent_borrowers"] = max(stats["max_concurrent_borrowers"], cur)
     return fails, traces, stats
 
 
@@ -584,7 +634,7 @@ def correspond(ctx):
         fails += f
         alltr += [(thr, t, seed) for thr, t in tr]
         for k, v in st.items():
-            total[k] = max(total.get(k, 0), v) if k == "max_batch" else total.get(k, 0) + v
+            total[k] = max(total.get(k, 0), v) if k in ("max_batch", "max_concurrent_borrowers") else total.get(k, 0) + v
     res = conc.coq_conform("c17_conf", ["Word", "Conc", "Gen_group", "Gen_refcnt", "Refcnt"], "conform",
                            [(0, t) for (_, t, _) in alltr], timeout=1200, chunk=150)
     for (i, idle), (thr, t, seed) in zip(res, alltr):
@@ -596,9 +646,11 @@ def correspond(ctx):
     notes = []
     # (c) thorough tier: the same scripts and stress under AddressSanitizer
     if not quick:
-        af, note = asan_runs(ctx, gs, ls)
+        af, note, abroken = asan_runs(ctx, gs, ls)
         fails += af
         notes.append(note)
+        for b in abroken:
+            mism.append({"what": "the AddressSanitizer validation of the thorough tier could not be carried out", "detail": b})
     dist = dict(st1)
     dist.update(st2)
     dist.update({"stress_" + k: v for k, v in total.items()})
@@ -652,12 +704,10 @@ def asan_build():
 
 
 def asan_runs(ctx, gs, ls):
-    try:
-        exe, msg = asan_build()
-    except Exception as e:  # noqa
-        return [], "ASan run skipped: %r" % e
+    """returns (failures, note, broken): a build / run problem is reported as a broken tie, never swallowed"""
+    exe, msg = asan_build()
     if exe is None:
-        return [], "ASan run skipped: " + msg
+        return [], "ASan run NOT done: " + msg, [msg]
     env = dict(os.environ, ASAN_OPTIONS="detect_leaks=0:abort_on_error=0:halt_on_error=1:exitcode=99")
     fails = []
     lines = ["G " + s for s in gs] + ["L " + s for s in ls]
@@ -665,6 +715,10 @@ def asan_runs(ctx, gs, ls):
     for k, rc, err in crashes:
         fails.append({"key": "asan:%s" % lines[k], "what": "AddressSanitizer / crash (rc=%s) on the legal reference history %s: %s" %
                       (rc, lines[k], " ".join(err.split())[:400]), "script": lines[k], "asan": True})
+    broken = []
+    done = sum(1 for o in outs if o is not None)
+    if done + len(crashes) < len(lines):
+        broken.append("ASan harness evaluated only %d of %d scripts" % (done, len(lines)))
     n = 0
     for i in range(6):
         r = run_stress(exe, ctx.seed * 1000 + 500 + i, 60, [150, 400, 0][i % 3], env=env)
@@ -672,7 +726,9 @@ def asan_runs(ctx, gs, ls):
         if r.returncode != 0:
             fails.append({"key": "asan:stress:%d" % i, "what": "AddressSanitizer / crash (rc=%s) in the last-release race stress: %s" %
                           (r.returncode, " ".join((r.stderr or "").split())[:500]), "label": "asan-seed%d" % (ctx.seed * 1000 + 500 + i), "asan": True})
-    return fails, "ASan build: %d scripts, %d stress runs, %d reports" % (len(lines), n, len(fails))
+        elif sum(1 for l in r.stdout.split("\n") if l.startswith("R ")) != 60:
+            broken.append("ASan stress run %d produced no complete output" % i)
+    return fails, "ASan build: %d scripts, %d stress runs, %d reports" % (len(lines), n, len(fails)), broken
 
 
 def replay(ctx, obj):
